@@ -472,3 +472,47 @@ func selfTestQuic() error {
 	_ = bytes.Equal
 	return nil
 }
+
+// ---- packets of other types coalesced with Initials (RFC 9000 section 12.2) --------------------------------------------
+//
+// A client may put packets of other encryption levels behind its Initial in the same datagram (Initial + 0-RTT is the
+// usual form of a resuming client, and one of the two ways section 14.1 names to bring the datagram to 1200 bytes);
+// an observer without the keys sees them as opaque bytes and, for long headers, a Length it can step over.
+
+const (
+	trNone = iota
+	trZeroRTT
+	trHandshake
+	trShort
+	trZeros
+	nTrailerKinds
+)
+
+var trailerName = [...]string{"none", "0rtt", "handshake", "short", "zeros"}
+
+// otherPacket: a packet that is not an Initial, as it looks on the wire (protected bits and payload are opaque).
+func otherPacket(v qver, kind int, dcid, scid []byte) []byte {
+	switch kind {
+	case trZeroRTT, trHandshake:
+		k := byte(1) // 0-RTT is the type code behind Initial, Handshake the one behind that, in v1 and in v2
+		n := 41
+		if kind == trHandshake {
+			k, n = 2, 29
+		}
+		code := (v.initialType + k) & 3
+		p := []byte{0xc0 | code<<4 | 0x0b, byte(v.ver >> 24), byte(v.ver >> 16), byte(v.ver >> 8), byte(v.ver)}
+		p = append(p, byte(len(dcid)))
+		p = append(p, dcid...)
+		p = append(p, byte(len(scid)))
+		p = append(p, scid...)
+		p = append(p, varint2(n)...)
+		return append(p, patternBytes(n, 0x5a+kind)...)
+	case trShort: // 1-RTT: header form 0, fixed bit 1, destination connection id, opaque
+		p := []byte{0x40 | 0x1d}
+		p = append(p, dcid...)
+		return append(p, patternBytes(33, 0x33)...)
+	case trZeros: // bytes behind the last packet that are no packet at all
+		return []byte{0, 0, 0}
+	}
+	return nil
+}
